@@ -7,5 +7,6 @@ CONSTANTS Kinds <- AllKinds
   EOF_IS_BROKEN = FALSE
   TRIM_TWICE = TRUE
   USED_HOISTED = FALSE
+  SHARED_SEEN = FALSE
 INVARIANTS TypeOK StepsAgree DamageHarmless ScanReturns
 CHECK_DEADLOCK FALSE
